@@ -162,6 +162,17 @@ def run(ctx):
     srcs.update(LOOP_EXIT_PROGRAMS)
     srcs.update(COND_PROGRAMS)
     bad, nfun, stats = wf_pass(ctx, srcs, levels)
+    # a conditional branch further than 127 bytes from its label is text the assembler rejects: spans around the
+    # limit (tools/lib/gen_c.py long_programs), displacements with the sizes the assembler gives
+    from lib.gen_c import long_programs
+    from lib.pipeline import real_size_range_problems, compile_variants
+    lp = long_programs()
+    lcomp = compile_variants({k: p.source() for k, p in lp.items()}, {O: [O] for O in levels})
+    rp, rchecked = real_size_range_problems(lcomp)
+    stats['branches_measured_with_assembled_sizes'] = rchecked
+    for x in rp:
+        pid = x['id'].split('@')[0]
+        bad.append({'id': pid, 'why': x['why'], 'program': lp[pid].source(), 'level': x['id'].split('@')[1]})
     ctx.cov['programs'] = len(srcs)
     ctx.cov['distinct_nontrivial'] = stats['inline_blocks'] + stats['fixes']
     ctx.cov['correspondence']['corr-S assembler front end'] = dict(stats, functions=nfun, rejected=len(bad))
